@@ -176,6 +176,9 @@ func (s *session) recover() (err error) {
 			return errors.SetFd(err, fd)
 		}
 
+		// A damaged (e.g. torn) record is skipped as a whole: fields decoded
+		// before the damage was met must not leak into the recovered state.
+		saved := *rec
 		err = rec.decode(r)
 		if err == nil {
 			// save compact pointers
@@ -190,6 +193,7 @@ func (s *session) recover() (err error) {
 				return
 			}
 			s.logf("manifest error: %v (skipped)", errors.SetFd(err, fd))
+			*rec = saved
 		}
 		rec.resetCompPtrs()
 		rec.resetAddedTables()
